@@ -6845,6 +6845,19 @@ impl<SP: SignerProvider> ChannelContext<SP> {
 			}
 		}
 
+		// Likewise, the `ChannelMonitor` no longer knows the HTLCs whose failure became irrevocable
+		// while a `ChannelMonitorUpdate` was in progress: they have been removed from both of the
+		// counterparty's commitment transactions. As we'll never get to release the failures we
+		// hold for them, hand them back to be failed now.
+		for (source, payment_hash, _) in self.monitor_pending_failures.drain(..) {
+			dropped_outbound_htlcs.push((
+				source,
+				payment_hash,
+				counterparty_node_id,
+				self.channel_id,
+			));
+		}
+
 		let monitor_update = if let Some(funding_txo) = funding.get_funding_txo() {
 			// We should only generate a closing `ChannelMonitorUpdate` if we already have a
 			// `ChannelMonitor` for the disk (i.e. `counterparty_next_commitment_transaction_number`
